@@ -306,4 +306,144 @@ def rule_commit(ctx) -> RuleResult:
     return res
 
 
-RULES = [rule_pure, rule_commit]
+def _members_read(expr, form_text=None):
+    """Constant member names read from a ui.json form inside `expr`: X.get("m", ..), X["m"], "m" in X, truth(u, n, "m")."""
+    out = []
+    for n in ast.walk(expr):
+        if isinstance(n, ast.Call) and isinstance(n.func, ast.Attribute) and n.func.attr == "get" and n.args and isinstance(n.args[0], ast.Constant):
+            out.append((unparse(n.func.value), n.args[0].value, "get"))
+        elif isinstance(n, ast.Subscript) and isinstance(n.slice, ast.Constant) and isinstance(n.slice.value, str):
+            out.append((unparse(n.value), n.slice.value, "item"))
+        elif isinstance(n, ast.Compare) and isinstance(n.left, ast.Constant) and isinstance(n.left.value, str) and isinstance(n.ops[0], (ast.In, ast.NotIn)):
+            out.append((unparse(n.comparators[0]), n.left.value, "in"))
+        elif isinstance(n, ast.Call) and getattr(n.func, "id", None) == "truth" and len(n.args) == 3 and isinstance(n.args[2], ast.Constant):
+            out.append((f"{unparse(n.args[0])}[{unparse(n.args[1])}]", n.args[2].value, "get"))
+    return out
+
+
+def rule_rules(ctx) -> RuleResult:
+    res = RuleResult(
+        "C15.RULES",
+        "C15",
+        "(a) dependency_requires_value reads the driving parameter's state from `enabled` exactly when the driver is "
+        "`optional` (else from its boolean `value`), un-negated for dependencyType 'enabled' and negated otherwise — the "
+        "rule the ui.json documentation states; (b) AssociationValidator resolves an identifier for every value kind "
+        "its signature and Workspace.get_entity can hand it (no kind falls into the silent `else: return`)",
+        floor=3,
+    )
+    p = ctx.p
+    uj = p.module("ui_json/utils.py")
+    fn = uj.functions.get("dependency_requires_value")
+    if fn is None:
+        raise AnalysisError("anchor ui_json.utils.dependency_requires_value not found")
+    sel = [n for n in ast.walk(fn.node) if isinstance(n, ast.IfExp) and isinstance(n.body, ast.Constant) and isinstance(n.orelse, ast.Constant)
+           and {n.body.value, n.orelse.value} == {"enabled", "value"}]
+    if not sel:
+        raise AnalysisError("dependency_requires_value: the `enabled`/`value` state selector was not recognised")
+    for s in sel:
+        t = s.test
+        neg = False
+        while isinstance(t, ast.UnaryOp) and isinstance(t.op, ast.Not):
+            neg, t = not neg, t.operand
+        reads = _members_read(t)
+        members = {(m, how) for _, m, how in reads}
+        forms = {f for f, _, _ in reads}
+        on_driver = all("dependency" in f for f in forms)
+        if members == {("optional", "get")} and on_driver and isinstance(t, ast.Call):
+            ok = (s.body.value == "enabled") != neg
+            res.inst(f"dependency_requires_value:{s.lineno} driver state member = 'enabled' iff driver.optional", nontrivial=True, ok=ok)
+            if not ok:
+                res.find("utils", "dependency_requires_value", "the state selector is inverted", f"{uj.relpath}:{s.lineno}",
+                         "an optional driver is read through its value and a checkbox through `enabled`")
+        elif any(m != "optional" or how != "get" for m, how in members) or not on_driver:
+            res.inst(f"dependency_requires_value:{s.lineno} selector consults {sorted(members)}", nontrivial=True, ok=False)
+            res.find("utils", "dependency_requires_value", f"the state selector consults {sorted(m for m, _ in members)} ({unparse(s.test)[:50]})",
+                     f"{uj.relpath}:{s.lineno}",
+                     "whether the driver's state is its `enabled` switch or its boolean `value` must depend on the driver being optional (truthy "
+                     "`optional` member) only: a checkbox carrying a redundant `enabled` member, or a non-optional driver, is read through the wrong member "
+                     "and None is accepted/refused wrongly for the dependent parameter")
+        else:
+            raise AnalysisError(f"dependency_requires_value:{s.lineno}: selector `{unparse(s.test)[:60]}` not recognised")
+    # polarity by dependencyType
+    gates = [n for n in ast.walk(fn.node) if isinstance(n, ast.If) and any(m == "dependencyType" for _, m, _ in _members_read(n.test))]
+    if not gates:
+        raise AnalysisError("dependency_requires_value: dependencyType branch not recognised")
+    for gt in gates:
+        t = gt.test
+        is_enabled_eq = isinstance(t, ast.Compare) and isinstance(t.ops[0], (ast.Eq, ast.NotEq)) and isinstance(t.comparators[0], ast.Constant) and t.comparators[0].value in ("enabled", "disabled")
+        default = next((unparse(c.args[1]) for c in ast.walk(t) if isinstance(c, ast.Call) and getattr(c.func, "attr", None) == "get" and len(c.args) > 1), None)
+        if not is_enabled_eq:
+            raise AnalysisError(f"dependency_requires_value:{gt.lineno}: dependencyType test not recognised")
+        pos_branch = (t.comparators[0].value == "enabled") == isinstance(t.ops[0], ast.Eq)
+
+        def negated(block):
+            a = [x for x in block if isinstance(x, ast.Assign)]
+            if len(a) != 1:
+                return None
+            return isinstance(a[0].value, ast.UnaryOp) and isinstance(a[0].value.op, ast.Not)
+
+        nb, no = negated(gt.body), negated(gt.orelse)
+        if nb is None or no is None:
+            raise AnalysisError(f"dependency_requires_value:{gt.lineno}: branch assignments not recognised")
+        ok = (nb != no) and (nb is (not pos_branch)) and default in ("'enabled'", None)
+        res.inst(f"dependency_requires_value:{gt.lineno} dependencyType 'enabled' -> driver state, otherwise its negation; default 'enabled'", nontrivial=True, ok=ok)
+        if not ok:
+            res.find("utils", "dependency_requires_value", "dependencyType polarity / default changed", f"{uj.relpath}:{gt.lineno}",
+                     "an 'enabled' dependency must require the value when the driver is on, a 'disabled' one when it is off (default 'enabled')")
+    # (b) AssociationValidator kinds
+    V = p.cls("AssociationValidator")
+    vf = V.methods.get("validate")
+    if vf is None:
+        raise AnalysisError("anchor AssociationValidator.validate not found")
+
+    def ann_names(a):
+        out = set()
+        for n in ast.walk(a) if a is not None else []:
+            if isinstance(n, ast.Name):
+                out.add(n.id)
+            elif isinstance(n, ast.Attribute):
+                out.add(n.attr)
+            elif isinstance(n, ast.Constant) and isinstance(n.value, str):
+                out |= {x.strip() for x in n.value.replace("|", ",").split(",")}
+        return out - {"None", "list", "uuid", "Optional", "Union"}
+
+    vparam = vf.params[2] if len(vf.params) > 2 else "value"
+    arg = next(a for a in vf.node.args.args if a.arg == vparam)
+    kinds = ann_names(arg.annotation)
+    ge = p.cls("Workspace").methods.get("get_entity")
+    kinds |= ann_names(ge.node.returns) if ge is not None else set()
+    handled = set()
+    silent = False
+    for n in ast.walk(vf.node):
+        if isinstance(n, ast.If):
+            chain, cur = [], n
+            while True:
+                chain.append(cur)
+                if len(cur.orelse) == 1 and isinstance(cur.orelse[0], ast.If):
+                    cur = cur.orelse[0]
+                else:
+                    break
+            tests = [c.test for c in chain]
+            if all(isinstance(t, ast.Call) and getattr(t.func, "id", None) == "isinstance" and unparse(t.args[0]) == vparam for t in tests) \
+                    and cur.orelse and isinstance(cur.orelse[0], ast.Return):
+                silent = True
+                for t in tests:
+                    handled |= ann_names(t.args[1])
+                break
+    if not silent:
+        res.inst("AssociationValidator.validate: no silent fall-through", ok=True)
+    else:
+        def covered(k):
+            kc = p.cls(k) if any(c.name == k for c in p.classes) else None
+            if k in handled:
+                return True
+            return kc is not None and any(getattr(b, "name", None) in handled for b in kc.mro)
+        missing = sorted(k for k in kinds if not covered(k))
+        res.inst(f"AssociationValidator.validate: value kinds {sorted(kinds)} all dispatched before `else: return` (handled {sorted(handled)})", nontrivial=True, ok=not missing)
+        if missing:
+            res.find("AssociationValidator", "validate", f"value kind(s) {missing} fall into the silent `else: return`", vf.where,
+                     f"a {missing[0]} value is accepted without checking that it belongs to the referenced parent / workspace")
+    return res
+
+
+RULES = [rule_pure, rule_commit, rule_rules]
